@@ -653,3 +653,97 @@ package control
 //@   ensures outbound == consts.OutboundLogicalOr.String() ==> result1 == nil && result0 == consts.OutboundLogicalOr
 //@   ensures outbound == consts.OutboundLogicalAnd.String() && outbound != consts.OutboundLogicalOr.String() ==> result1 == nil && result0 == consts.OutboundLogicalAnd
 //@   ensures result1 == nil && outbound != consts.OutboundLogicalOr.String() && outbound != consts.OutboundLogicalAnd.String() && outbound != consts.OutboundMustRules.String() ==> has(b.outboundName2Id, outbound) && result0 == b.outboundName2Id[outbound]
+
+// C08 lookup decision table (returns in source order): 1 unknown key; 2/3 fresh answer (packed or filled in
+// place), never marked for refresh; 4 fresh but unservable; 5 stale answer inside the optimistic window,
+// refresh requested by at most one caller (CAS); 6 expired beyond the window: evicted, nothing served.
+// The deadline consulted is the fixed-TTL deadline unless the caller asks to ignore fixed TTLs, and the
+// same clock reading is used for every decision of one lookup.
+//@ func (*DnsController).LookupDnsRespCache_
+//@   anchorsonly
+//@   dyncalls noeffect
+//@   modifies *
+//@   at call Time).After#1 assert a1 == now && a0 == (ignoreFixedTtl ? cache.OriginalDeadline : cache.Deadline)
+//@   at call GetPackedResponseWithApproximateTTL#1 assert a0 == cache && a3 == now
+//@   at call fillIntoWithTTLInPlace#1 assert a0 == cache && a1 == msg && a2 == now
+//@   at call GetStaleResponse#1 assert a0 == cache && a1 == now && a2 == optimisticCacheTtl && optimisticCacheEnabled
+//@   at call evictDnsRespCacheIfSame#1 assert a1 == cacheKey && a2 == cache
+//@   at return 1 assert resp == nil && !needRefresh
+//@   at return 2 assert resp != nil && !needRefresh
+//@   at return 3 assert resp != nil && !needRefresh
+//@   at return 4 assert resp == nil && !needRefresh && calls("evictDnsRespCacheIfSame") == 0
+//@   at return 5 assert resp != nil && calls("GetStaleResponse") == 1 && calls("evictDnsRespCacheIfSame") == 0
+//@   at return 6 assert resp == nil && !needRefresh && calls("evictDnsRespCacheIfSame") == 1
+
+// C10: the side effects to retract after a cache entry was replaced are the address answers of the old
+// entry that are real addresses and that the new entry no longer lists - nothing the new entry still
+// lists is ever handed to the removal path. (Loop 1 finds them, loop 2 copies them when they are not one
+// contiguous run.)
+//@ func staleDnsSideEffects
+//@   dyncalls noeffect
+//@   modifies *
+//@   let aip(k int) = nth(dnsAnswerIP(prev.Answer[k]), 0)
+//@   let stale(k int) = nth(dnsAnswerIP(prev.Answer[k]), 1) && !aip(k).IsUnspecified() && !next.IncludeIp(aip(k))
+//@   at return 4 assert result != nil && result.Answer.$base == prev.Answer.$base && result.Answer.$off == prev.Answer.$off + firstStaleIdx && len(result.Answer) == lastStaleIdx - firstStaleIdx + 1
+//@   at return 1 assert prev == nil && result == nil
+//@   at return 2 assert next == nil && result == prev
+//@   at return 3 assert result == nil && staleCount == 0
+//@   at return 4 assert contiguous && 0 <= firstStaleIdx && firstStaleIdx <= lastStaleIdx && lastStaleIdx < len(old(prev.Answer))
+//@   at call IncludeIp#2 assert a0 == next && a1 == ip
+//@   at call builtin:append#1 assert ok && !ip.IsUnspecified()
+//@   loop 1
+//@     invariant prev != nil && next != nil && len(prev.Answer) == old(len(prev.Answer))
+//@     invariant staleCount >= 0 && staleCount <= $idx && (staleCount == 0 <==> firstStaleIdx == -1) && (staleCount == 0 ==> lastStaleIdx == -1)
+//@     invariant staleCount > 0 ==> 0 <= firstStaleIdx && firstStaleIdx <= lastStaleIdx && lastStaleIdx < $idx
+//@     invariant forall k int {prev.Answer[k]} :: 0 <= k && k < $idx && stale(k) ==> staleCount > 0 && firstStaleIdx <= k && k <= lastStaleIdx
+//@     invariant contiguous && staleCount > 0 ==> (forall k int {prev.Answer[k]} :: firstStaleIdx <= k && k <= lastStaleIdx ==> stale(k))
+//@     exit staleCount == 0 ==> (forall k int {prev.Answer[k]} :: 0 <= k && k < len(prev.Answer) ==> !stale(k))
+//@     exit contiguous && staleCount > 0 ==> (forall k int {prev.Answer[k]} :: 0 <= k && k < len(prev.Answer) ==> (stale(k) <==> (firstStaleIdx <= k && k <= lastStaleIdx)))
+
+// (records handed out by miekg/dns are never typed-nil pointers: nil checks off)
+//@ func dnsAnswerIP
+//@   pure
+//@   nonilcheck
+//@   dyncalls noeffect
+//@ func (*DnsCache).IncludeIp
+//@   pure
+//@   requires c != nil
+//@   ensures result <==> (exists i int {c.Answer[i]} :: 0 <= i && i < len(c.Answer) && nth(dnsAnswerIP(c.Answer[i]), 1) && nth(dnsAnswerIP(c.Answer[i]), 0) == ip)
+//@   loop 1
+//@     invariant forall k int {c.Answer[k]} :: 0 <= k && k < $idx ==> !(nth(dnsAnswerIP(c.Answer[k]), 1) && nth(dnsAnswerIP(c.Answer[k]), 0) == ip)
+
+// C10: of the candidate's address answers only those no live sibling entry still lists are retracted
+//@ func (*DnsController).orphanedDnsSideEffects
+//@   anchorsonly
+//@   dyncalls noeffect
+//@   modifies *
+//@   at return 1 assert candidate == nil && result == nil
+//@   at return 2 assert baseKey == "" && result == candidate
+//@   at return 3 assert result == candidate && len(liveIPs) == 0
+//@   at call builtin:append#1 assert !ip.IsUnspecified() && !has(liveIPs, ip)
+//@   at return 4 assert result == nil && len(orphaned) == 0
+//@   at return 5 assert result != nil && result.Answer.$base == orphaned.$base && len(result.Answer) == len(orphaned) && len(orphaned) > 0
+
+// removal of one entry: knowledge, delete callback and side-effect retraction all see the removed entry
+// and its own keys, each exactly once and only if the entry was present
+//@ func (*DnsController).RemoveDnsRespCache
+//@   anchorsonly
+//@   dyncalls noeffect
+//@   modifies *
+//@   at call forgetDnsKnowledge#1 assert a1 == cacheKey && a2 == cache
+//@   at call invokeCacheDeleteCallback#1 assert a1 == cacheKey && a2 == cache
+//@   at call onBaseKeySideEffectsEvicted#1 assert a1 == dnsCacheBaseKey(cacheKey) && a2 == cache
+//@   ensures calls("forgetDnsKnowledge") == calls("invokeCacheDeleteCallback") && calls("invokeCacheDeleteCallback") == calls("onBaseKeySideEffectsEvicted") && calls("onBaseKeySideEffectsEvicted") <= 1
+
+//@ func (*DnsController).onBaseKeySideEffectsEvicted
+//@   anchorsonly
+//@   dyncalls noeffect
+//@   modifies *
+//@   at call orphanedDnsSideEffects#1 assert a1 == baseKey && a2 == candidate
+//@   at call onDnsCacheEvicted#1 assert a1 == cache && cache != nil
+
+// base key of a (possibly scoped) cache key: the part before the first '|'
+//@ func dnsCacheBaseKey
+//@   vpure
+//@   ensures nth(strings.Cut(cacheKey, "|"), 2) ==> result == nth(strings.Cut(cacheKey, "|"), 0)
+//@   ensures !nth(strings.Cut(cacheKey, "|"), 2) ==> result == cacheKey
